@@ -175,3 +175,107 @@ c.check("digests", _digests_ok)
 c.raises("ValueError")
 c.raises("FileNotFoundError")
 c.callers_inline = True
+
+
+# ------------------------------------------------------------------------------------------------ B: bounded stand-in
+def check_digests(env_bytes):
+    """Independent re-derivation of every recorded digest from the OUTPUT bytes (own CBOR reader + hashlib). Returns messages."""
+    from bounded import cborx
+    from contracts.specs_native import HASH
+    msgs = []
+
+    def walk(b, where):
+        t = cborx.decode_all(b, strict=True)
+        if not isinstance(t, cborx.Tag) or t.tag != 107:
+            return msgs.append(f"{where}: not a tagged envelope")
+        m = t.value
+        wrapper = cborx.decode_all(m.get(2), strict=True)
+        alg, dg = cborx.decode_all(wrapper[0], strict=True)
+        name, size = R.HASHES[alg]
+        want = HASH(name, size, cborx.encode(m.get(3)))  # the byte-string-WRAPPED manifest exactly as it appears
+        if dg != want:
+            msgs.append(f"{where}: manifest digest ({name}) is {dg.hex()[:16]}.., the wrapped manifest hashes to {want.hex()[:16]}.. (manifest {len(m.get(3))} bytes)")
+        manifest = cborx.decode_all(m.get(3), strict=True)
+        for cls in SEVERABLE:
+            sid = R.id_of(cls)
+            v = manifest.get(sid)
+            if isinstance(v, list) and len(v) == 2 and isinstance(v[0], int) and v[0] in R.HASHES and isinstance(v[1], bytes) and sid in m:
+                name, size = R.HASHES[v[0]]
+                want = HASH(name, size, cborx.encode(m.get(sid)))
+                if v[1] != want:
+                    msgs.append(f"{where}: digest of severed {R.name_of(cls)} ({name}) does not match the member's wrapped bytes ({len(m.get(sid))} bytes)")
+        for k, v in m.pairs:
+            if isinstance(k, str) and isinstance(v, bytes) and v[:2] == b"\xd8\x6b":
+                walk(v, where + "/" + k)
+    walk(env_bytes, "")
+    return msgs
+
+
+def _create_native(desc):
+    import copy
+    from suit_generator.suit.envelope import SuitEnvelopeTagged
+    e = SuitEnvelopeTagged.from_obj(copy.deepcopy(desc))
+    e.update_severable_digests()
+    e.update_digest()
+    return e.to_cbor()
+
+
+def _sized(L, alg, member_len):
+    """A description whose manifest (through the reference URI) and severed install member (through a URI parameter) have tunable sizes."""
+    return {"SUIT_Envelope_Tagged": {
+        "suit-authentication-wrapper": {"SuitDigest": {"suit-digest-algorithm-id": alg, "suit-digest-bytes": "00"}},
+        "suit-manifest": {"suit-manifest-version": 1, "suit-manifest-sequence-number": 1, "suit-common": {"suit-components": [["M"]]},
+                          "suit-reference-uri": "u" * L, "suit-install": {"suit-digest-algorithm-id": alg, "suit-digest-bytes": "11" * 4},
+                          "suit-text": {"suit-digest-algorithm-id": alg, "suit-digest-bytes": ""}},
+        "suit-install": [{"suit-directive-override-parameters": {"suit-parameter-uri": "p" * member_len}}],
+        "suit-text": {"en": {"suit-text-manifest-description": "t" * member_len}}}}
+
+
+def bounded(ctx):
+    from bounded.harness import Bounded
+    from bounded import gen_desc as G
+    from pyvc import native
+    import logging
+    native.install_log_shim()
+    logging.disable(logging.CRITICAL)
+    quick = ctx["tier"] == "quick"
+    B = Bounded(ctx, rule="create (library and CLI) then every recorded digest re-derived from the output bytes with an independent CBOR reader and hashlib: manifest and "
+                          "severed-member sizes swept through every residue modulo 256/512 and across the bstr header widths 23/24, 255/256, 65535/65536, five algorithms, "
+                          "supplied digests always wrong; plus the generated description language (all member subsets, nested dependencies); distinct by description",
+                bound="reference-URI length 0..600 and 65400..65560 (step 1; quick: the large range step 7), member length 0..520; generator: systematic + 150/2000 random", budget_s=60 if quick else 600)
+    n = 0
+    ranges = list(range(0, 601)) + list(range(65400, 65561, 7 if quick else 1))
+    for L in ranges:
+        if B.out_of_time():
+            break
+        alg = ALG[n % 5]
+        ml = (n * 7) % 521
+        desc = _sized(L, alg, ml)
+        n += 1
+        B.case(("sized", L, alg, ml), sample={"reference_uri_length": L, "alg": alg, "member_payload_length": ml} if n in (5, 300) else None)
+        try:
+            out = _create_native(desc)
+        except Exception as e:  # noqa: BLE001
+            B.fail("create-succeeds", {"kind": "sized", "L": L, "alg": alg, "member_len": ml}, f"{type(e).__name__}: {e}")
+            continue
+        for msg in check_digests(out)[:1]:
+            B.fail("recorded-digests-match-the-output-bytes", {"kind": "sized", "L": L, "alg": alg, "member_len": ml}, msg)
+    for name, desc in G.systematic(ctx["seed"]) + G.sample(ctx["seed"] + 3, 150 if quick else 2000):
+        if B.out_of_time():
+            break
+        B.case(name)
+        try:
+            out = _create_native(desc)
+        except Exception:  # noqa: BLE001  (acceptance is C02's)
+            continue
+        for msg in check_digests(out)[:1]:
+            B.fail("recorded-digests-match-the-output-bytes", {"kind": "generated", "name": name, "description": desc}, msg)
+    return B.done()
+
+
+def replay_case(case):
+    from pyvc import native
+    native.install_log_shim()
+    desc = _sized(case["L"], case["alg"], case["member_len"]) if case.get("kind") == "sized" else case["description"]
+    msgs = check_digests(_create_native(desc))
+    return not msgs, msgs[:2]
